@@ -31,6 +31,7 @@ EXPLANATION = (
     "`upper` of Highs.getCols per the external contract) and the queues are cleared on every exit; (R6) values are read back by the "
     "(R5, extended) Highs.getCols is called with a sorted index set and its returned count is checked; the queued updates are applied before the solver run on every path of optimize(); a memo of solution values is invalidated after every run.  "
     " (R7) scalar bounds handed to add_variables are recognised also when they are numpy scalars (no silent fall-through to the default bounds [0, 1]); (R2, extended) the bit expansion is sized from integer_ub when the caller gives the bound of the integer factor, from ub otherwise, and each case is sufficient for its sizing quantity. "
+    " (R5, extended) the fix queue is applied with one entry per column (dict keys, sorted) and its status is checked; the lower bounds written take a value fixed in the same batch into account (def-use with reaching definitions, both backends). "
     "variable's own column index, one entry per requested key.  NOT decided: HiGHS' handling of the rows, numerical tolerance."
 )
 DECIDED = ["exactness of the binary*continuous product helper (soundness + completeness, algebraic proof)",
